@@ -25,6 +25,8 @@ type c12Input struct {
 	// Bound > 0: the evaluation is repeated under every hash-map iteration order with at most Bound rotated
 	// iterations (the order in which the series of a step arrive on either side is map iteration order)
 	Bound int `json:"bound,omitempty"`
+	// Bool: the comparison carries the `bool` modifier.
+	Bool bool `json:"bool,omitempty"`
 }
 
 // sample seconds per (side, a): chosen so that the three steps see different counts (including none)
@@ -71,11 +73,11 @@ func c12Build(in c12Input) ([]mockq.Rec, refmodel.Expr) {
 	case "nan": // x/0 is NaN: comparisons with NaN never hold
 		return data, &refmodel.Bin{Op: in.Op, L: &refmodel.Bin{Op: "/", L: l, R: &refmodel.Lit{V: 0}}, R: &refmodel.Lit{V: in.S}}
 	case "vs":
-		return data, &refmodel.Bin{Op: in.Op, L: l, R: &refmodel.Lit{V: in.S}}
+		return data, &refmodel.Bin{Op: in.Op, L: l, R: &refmodel.Lit{V: in.S}, Bool: in.Bool}
 	case "sv":
-		return data, &refmodel.Bin{Op: in.Op, L: &refmodel.Lit{V: in.S}, R: l}
+		return data, &refmodel.Bin{Op: in.Op, L: &refmodel.Lit{V: in.S}, R: l, Bool: in.Bool}
 	}
-	return data, &refmodel.Bin{Op: in.Op, L: l, R: r}
+	return data, &refmodel.Bin{Op: in.Op, L: l, R: r, Bool: in.Bool}
 }
 
 func c12Check(r *vkit.Run, in c12Input) bool {
@@ -106,6 +108,59 @@ func c12Check(r *vkit.Run, in c12Input) bool {
 	r.Fail("C12", in, nil, map[string]any{"query": expr.Text(), "result": res.String()}, exp,
 		fmt.Sprintf("%s with left a=%v right a=%v: %s", expr.Text(), in.L, in.R, why), "")
 	return nonEmpty
+}
+
+// c12CheckBoolPair evaluates a comparison without and with the `bool` modifier (and without again: the answer
+// must not depend on which form this process built first). Each result must be the reference result under one of
+// the two conventions; and where the conventions differ (some series fails the comparison), the modifier must
+// select the other one: a comparison filters, `bool` turns it into 0/1 (or the reverse, as this engine has it),
+// but the two forms are never the same thing.
+func c12CheckBoolPair(r *vkit.Run, in c12Input) bool {
+	r.Begin("C12/bool", in)
+	start := (c09Base + 5) * sec
+	end, step := start, int64(0)
+	if in.Range {
+		end, step = start+15*sec, 5*sec
+	}
+	times := gridTimes(start, end, step)
+	plain, withBool := in, in
+	plain.Bool, withBool.Bool = false, true
+	data, ePlain := c12Build(plain)
+	_, eBool := c12Build(withBool)
+	expZ, _, _, _ := expectGrid(ePlain, data, times, refmodel.Convention{FalseIsZero: true})
+	expD, _, _, _ := expectGrid(ePlain, data, times, refmodel.Convention{FalseIsZero: false})
+	var res [3]engResult
+	for k, e := range []refmodel.Expr{ePlain, eBool, ePlain} {
+		res[k] = evalEngine(mockq.New(data), e.Text(), start, end, time.Duration(step))
+		r.Eval()
+	}
+	r.Step(3 * len(times))
+	fail := func(why string) {
+		r.Fail("C12/bool", in, nil, map[string]any{"plain": res[0].String(), "bool": res[1].String(), "plain_again": res[2].String(), "queries": []string{ePlain.Text(), eBool.Text()}},
+			map[string]any{"false_is_0": expZ, "false_is_dropped": expD}, ePlain.Text()+" / "+eBool.Text()+": "+why, "")
+	}
+	conv := func(x engResult) string {
+		z, d := compare(x, expZ, nil) == "", compare(x, expD, nil) == ""
+		switch {
+		case z && d:
+			return "both"
+		case z:
+			return "zero"
+		case d:
+			return "drop"
+		}
+		return ""
+	}
+	c0, c1, c2 := conv(res[0]), conv(res[1]), conv(res[2])
+	switch {
+	case c0 == "" || c1 == "" || c2 == "":
+		fail("a result is the reference result under neither convention")
+	case res[0].String() != res[2].String():
+		fail("the plain form gives another result after the bool form was evaluated in the same process")
+	case c0 != "both" && c0 == c1:
+		fail("the bool modifier makes no difference although some series fails the comparison")
+	}
+	return len(expZ) > 0
 }
 
 // c12CheckOrders evaluates one vector-vector case under every map iteration order within in.Bound deviations.
@@ -174,8 +229,19 @@ func c12Run(r *vkit.Run) {
 			}
 			nontrivial := false
 			for _, rg := range []bool{false, true} {
+				// the bool modifier: each form alone under the usual tolerance, and as a pair (see c12CheckBoolPair)
+				for _, op := range []string{"==", "!=", ">", ">=", "<", "<="} {
+					for _, s := range []float64{2, 0.5} {
+						for _, kind := range []string{"vs", "sv", "vv"} {
+							in := c12Input{L: l, R: rr, Op: op, Kind: kind, S: s, RVar: 2, Range: rg}
+							if c12CheckBoolPair(r, in) {
+								nontrivial = true
+							}
+						}
+					}
+				}
 				for _, op := range arith {
-					for _, s := range []float64{0, 2, -3, 0.5} {
+					for _, s := range []float64{0, 2, -3, 0.5, 0.1, 0.3} {
 						for _, kind := range []string{"vs", "sv"} {
 							for lv := 0; lv < 2; lv++ {
 								if c12Check(r, c12Input{L: l, R: rr, Op: op, Kind: kind, S: s, LVar: lv, Range: rg}) {
@@ -235,13 +301,16 @@ func c12Run(r *vkit.Run) {
 			r.State(fmt.Sprint(l, rr))
 		}
 	}
-	r.Note("bounds", "left/right vectors = sum by (a) (count_over_time({side=..}[10s])) for every pair of subsets of a in {1,2,3} (equal, overlapping, disjoint, empty), optionally shifted/scaled to reach 0, negatives and fractions; vector-scalar and scalar-vector for 12 operators x scalars {0,2,-3,0.5}; vector-vector for 15 operators x 6 operand variants; instant and 4-step range in which series appear, persist and disappear on either side; for the 16 pairs with >= 2 series on both sides, 6 operators x instant/range under every hash-map iteration order within 1 (thorough: 2) rotated iterations")
+	r.Note("bounds", "left/right vectors = sum by (a) (count_over_time({side=..}[10s])) for every pair of subsets of a in {1,2,3} (equal, overlapping, disjoint, empty), optionally shifted/scaled to reach 0, negatives and fractions; vector-scalar and scalar-vector for 12 operators x scalars {0,2,-3,0.5,0.1,0.3}; comparisons with and without the bool modifier; vector-vector for 15 operators x 6 operand variants; instant and 4-step range in which series appear, persist and disappear on either side; for the 16 pairs with >= 2 series on both sides, 6 operators x instant/range under every hash-map iteration order within 1 (thorough: 2) rotated iterations")
 }
 
 func c12Replay(r *vkit.Run, v vkit.Violation) *vkit.Violation {
 	var in c12Input
 	if err := vkit.DecodeInput(v, &in); err != nil {
 		r.HarnessError("bad input: %v", err)
+	}
+	if v.Check == "C12/bool" {
+		return vkit.ReplayOne(r, func() { c12CheckBoolPair(r, in) })
 	}
 	if v.Check == "C12/map-order" {
 		ch := v.Choices
